@@ -38,7 +38,7 @@ scs = st.fixed_dictionaries({'N': st.sampled_from([None, 50, 50, 2, 3]), 'maxdep
 # wait_until_idle() calls from concurrent actors; no timeouts here (the call-history world above covers those)
 from bvt.gen import Profile, scenario  # noqa: E402
 
-P_ENGINE = Profile(min_buses=2, max_buses=3, par=0.15, fwd=0.3, hist=[None, 1, 1, 2, 3], maxdepth=[2], wild=0.1, raises=0.1, cap=40, max_actors=3, max_actor_ops=6, actor_ops=['disp', 'disp', 'burst', 'sleep', 'sleep', 'idle', 'idle', 'idle', 'yield'], modes=['await', 'await', 'await', 'later', 'ff'], burst=[2, 3], durs=[0.05, 0.1, 0.1, 0.25, 0.3], sync=0.1, min_handlers=2)
+P_ENGINE = Profile(min_buses=2, max_buses=3, par=0.15, fwd=0.3, hist=[None, 1, 1, 2, 3], maxdepth=[2], wild=0.1, raises=0.1, cap=40, max_actors=3, max_actor_ops=6, actor_ops=['disp', 'disp', 'burst', 'sleep', 'sleep', 'idle', 'idle', 'idle', 'yield', 'expect'], modes=['await', 'await', 'await', 'later', 'ff'], burst=[2, 3], durs=[0.05, 0.1, 0.1, 0.25, 0.3], sync=0.1, min_handlers=2)
 
 
 def _run_engine_case(sc):
@@ -91,6 +91,25 @@ def enumerate_cases(tier, seed):
                             {'bus': 1, 'pat': 2, 'kind': 'async', 'prog': [['sleep', 0.05]], 'ret': 'idx'},
                         ],
                         'actors': [[['disp', 0, 0]], [['sleep', off], ['idle', 1, None]]], 'maxdepth': 2, 'cap': 40, 'warm': warm,
+                    }
+
+
+_enum_cross_bus = enumerate_cases
+
+
+def enumerate_cases(tier, seed):
+    yield from _enum_cross_bus(tier, seed)
+    # a temporary handler (expect() with a timeout) that is applicable to an event when its processing starts and unregistered while an
+    # earlier handler of that event is still suspended: the bus must still finish the event and report idle
+    for to in (0.0625, 0.1875):
+        for d in (0.25, 0.5):
+            for par in (False, True):
+                for warm in (True, False):
+                    yield {
+                        'buses': [{'par': par, 'hist': None, 'rank': 1}], 'fwd': [],
+                        'handlers': [{'bus': 0, 'pat': 0, 'kind': 'async', 'prog': [['sleep', d]], 'ret': 'idx'}],
+                        'actors': [[['expect', 0, 0, to]], [['yield', 2], ['disp', 0, 0]], [['sleep', 1.0], ['idle', 0, None]]],
+                        'maxdepth': 1, 'cap': 10, 'warm': warm,
                     }
 
 
